@@ -14,7 +14,8 @@ CONSTANTS NTypesDefined,           \* number of cell types the parameter file de
 VARIABLES pop, op, at, arg, mut
 
 Ops == {"none", "npoints_plus", "npoints_minus", "drop_point", "ncells_plus", "ncells_minus", "nints_plus", "rowcount_plus", "rowcount_minus",
-        "nfaces_plus", "nfaces_minus", "node_oob", "node_huge", "ctype_bad", "ntypes_minus", "typeid_oob", "drop_typeid", "dup_row", "drop_row", "facesize_4", "node_wrap"}
+        "nfaces_plus", "nfaces_minus", "node_oob", "node_huge", "ctype_bad", "ntypes_minus", "typeid_oob", "drop_typeid", "dup_row", "drop_row", "facesize_4", "node_wrap",
+        "node_first_invalid", "typeid_first_invalid"}     \* the first value beyond the valid range (a range test wrong only at equality lets it through)
 
 SetRow(f, i, r) == [f EXCEPT !.rows[i] = r]
 Mutate(f, o, i, a) ==
@@ -30,6 +31,8 @@ Mutate(f, o, i, a) ==
       [] o = "nfaces_plus"   -> SetRow(f, i, [f.rows[i] EXCEPT ![2] = @ + 1])
       [] o = "nfaces_minus"  -> SetRow(f, i, [f.rows[i] EXCEPT ![2] = @ - 1])
       [] o = "node_oob"      -> SetRow(f, i, [f.rows[i] EXCEPT ![4] = f.npoints + 3])
+      [] o = "node_first_invalid"   -> SetRow(f, i, [f.rows[i] EXCEPT ![4] = f.npoints])
+      [] o = "typeid_first_invalid" -> [f EXCEPT !.typeids[i] = NTypesDefined]
       [] o = "node_huge"     -> SetRow(f, i, [f.rows[i] EXCEPT ![Len(f.rows[i])] = 99999999])
       [] o = "ctype_bad"     -> [f EXCEPT !.ctypes[i] = 41]
       [] o = "ntypes_minus"  -> [f EXCEPT !.ntypes = @ - 1]
